@@ -222,6 +222,17 @@ link_format_to_message.supported_ct = " ".join(  # type: ignore
 )
 
 
+def _attribute_values(link: Link, name: str) -> list:
+    """All values a link has for the attribute of the given name, as a list.
+
+    Unlike ``getattr(link, name)``, this is a list no matter whether
+    link_header regards the attribute as single-valued (``rel``, ``title``,
+    ...; those would come back as a plain string), and it only ever looks at
+    the link's attributes, not at Python attributes of the Link object."""
+    name = name.lower()
+    return [value for key, value in link.attr_pairs if key.lower() == name]
+
+
 class WKCResource(Resource):
     """Read-only dynamic resource list, suitable as .well-known/core.
 
@@ -274,14 +285,16 @@ class WKCResource(Resource):
                 filters.append(
                     lambda link: any(
                         matchexp(part)
-                        for part in (" ".join(getattr(link, k, ()))).split(" ")
+                        for part in (" ".join(_attribute_values(link, k))).split(" ")
                     )
                 )
             elif k in ("href",):  # x.href is single valued
                 filters.append(lambda link: matchexp(getattr(link, k)))
             else:
                 filters.append(
-                    lambda link: any(matchexp(part) for part in getattr(link, k, ()))
+                    lambda link: any(
+                        matchexp(part) for part in _attribute_values(link, k)
+                    )
                 )
 
         while filters:
